@@ -381,7 +381,7 @@ def case_apps(case):
     ids = list(case.get('apps', []))
     for tid in sorted(case['threads']):
         for it in case['threads'][tid]:
-            if it[0] == 'construct':
+            if it[0] in ('construct', 'poke', 'pokeattr', 'idle'):
                 ids.append(it[1])
     for r in case_reqs(case):
         for op in r.get('ops') or []:
@@ -454,6 +454,8 @@ def enc_out(out):
         return ['failform', hs('BodySizeError')]
     if k == 'failmultipart':
         return ['failmultipart', hs('BodyParsingError')]
+    if k == 'redirect':
+        return ['redirect', hs(out[1]), hs(status_line(303))]
     raise ValueError(out)
 
 
@@ -493,6 +495,10 @@ def enc_items(items, cfgs=None):
     for it in items:
         if it[0] == 'serve':
             toks += ['serve'] + enc_req(it[1], cfgs)
+        elif it[0] in ('poke', 'pokeattr'):
+            toks += [it[0], str(it[1]), hs(it[2]), hs(it[3])]
+        elif it[0] == 'idle':
+            toks += ['idle', str(it[1])]
         else:
             toks += ['construct', str(it[1])]
     return toks
@@ -604,8 +610,27 @@ class World:
         for it in items:
             if it[0] == 'serve':
                 self.serve(it[1])
+            elif it[0] == 'poke':
+                self.apps[it[1]].request[it[2]] = it[3]          # BaseRequest.__setitem__ on the idle request
+            elif it[0] == 'pokeattr':
+                setattr(self.apps[it[1]].request, it[2], it[3])   # BaseRequest.__setattr__
+            elif it[0] == 'idle':
+                self.tl.obs.append((it[1], 'i:' + self.idle_view(it[1])))
             else:
                 self.construct(it[1])
+
+    def idle_view(self, app_id):
+        """sorted items of the environ of the application's idle request; a request object shows as the
+        application it is the `.request` of"""
+        env = self.apps[app_id].request.environ
+        out = []
+        for k, v in env.items():
+            if isinstance(v, str):
+                out.append('%s=%s' % (k, show(v)))
+            else:
+                owner = [a for a, ap in self.apps.items() if ap.request is v]
+                out.append('%s=s%s' % (k, '<request %d>' % owner[0] if owner else '<' + type(v).__name__ + '>'))
+        return ';'.join(sorted(out))
 
     def run(self, repo, timeout=20.0, label_only=False):
         case = self.case
@@ -753,6 +778,9 @@ def h_script(world, app_id, req):
         return str(rq.json)
     if k in ('failform', 'failmultipart'):
         return str(rq.forms.get('f'))
+    if k == 'redirect':
+        from ombott.ombott import redirect       # the module level helper (works on Globals.request/response)
+        redirect(out[1])
     raise ValueError(out)
 
 
